@@ -528,6 +528,9 @@ FAR = [32766, 32767, 32768, 32769, 65535, 65536, 150000, 300001]
 ALIAS = "∠ĭżīįŜşĪůĢŻħĩĺľ\U0001002d\U0001007c\U00010020\U0001002b"
 # the ones without any drawing meaning (`∠` is a glyph of the Unicode table): usable as label characters
 ALIAS_LABELS = ALIAS[1:]
+# glyphs of the Unicode table (characters WITH a drawing meaning) whose code point truncated to a byte is an ASCII drawing
+# character: a memo keyed by truncated neighbours confuses them with `> ` , < V X [ \ ] ^ _ ` o`
+ALIAS_GLYPHS = "‾≠┬┼╖╘╛╜╝╞╟╠╯"
 
 
 def many_groups(rng, n=None):
@@ -545,6 +548,22 @@ def many_groups(rng, n=None):
     if left:
         art = side_by_side(left, art, rng.choice([1, 2]))
     return art
+
+
+def rail_many(rng, n=None, kind=None):
+    """a connected piece of `- | +` whose cells of one row are separated, in reading order, from the cells of the next row by
+    `n` separate label groups: the rail must still be one connected piece (a `+` keeps the stub towards the `|` above/below)"""
+    n = n or rng.choice([257, 300, 513, 70, 130])
+    kind = rng.below(4) if kind is None else kind
+    unit = rng.choice(["a", "ab", "x1", "Q"])
+    labels = " ".join(unit for _ in range(n))
+    if kind == 0:
+        return "|    " + labels + "\n+--"
+    if kind == 1:
+        return "+    " + labels + "\n|"
+    if kind == 2:
+        return "+--+  " + labels + "\n|  |\n+--+"
+    return "--+   " + labels + "\n  |  " + labels + "\n  +--"
 
 
 def staircase(rng, n=None, kind=None):
@@ -645,8 +664,10 @@ def alias_labels(rng):
 
 def extremes(rng):
     k = rng.below(12)
-    if k <= 1:
+    if k == 0:
         return many_groups(rng)
+    if k == 1:
+        return rail_many(rng) if rng.chance(1, 2) else many_groups(rng)
     if k == 2:
         return staircase(rng)
     if k <= 5:
@@ -669,6 +690,7 @@ def extremes_list(rng, n):
             long_things(rng, 129, 0), long_things(rng, 300, 0), long_things(rng, 257, 1), long_things(rng, 513, 2),
             long_things(rng, 257, 3), long_things(rng, 130, 4), long_things(rng, 130, 5), long_things(rng, 300, 6),
             long_things(rng, 80, 7), deep_nesting(rng)]
+    base += [rail_many(rng, 257, 0), rail_many(rng, 300, 1), rail_many(rng, 513, 2), rail_many(rng, 260, 3)]
     base += [far_away(rng) for _ in range(6)] + [alias_labels(rng) for _ in range(4)]
     out = base[:n]
     while len(out) < n:
